@@ -20,6 +20,37 @@ theorem utf8Decode_encode (s : Str) : utf8Decode (utf8Encode s) = some s := by
 
 theorem utf8Encode_crlf : utf8Encode ['\r', '\n'] = CRLF := by decide
 
+theorem uint8_ofNat_eq_13 (n : Nat) (h : UInt8.ofNat n = 13) : n % 256 = 13 := by
+  have := congrArg UInt8.toNat h
+  simpa using this
+
+/-- the byte CR occurs in a UTF-8 encoding only as the character CR -/
+theorem mem_utf8EncodeChar_cr (c : Char) (h : (13 : UInt8) ∈ String.utf8EncodeChar c) : c = '\r' := by
+  unfold String.utf8EncodeChar at h
+  simp only at h
+  split at h
+  · rename_i hv
+    simp only [List.mem_singleton] at h
+    have := uint8_ofNat_eq_13 _ h.symm
+    have hv13 : c.val.toNat = 13 := by omega
+    apply Char.ext
+    apply UInt32.toNat_inj.mp
+    rw [hv13]; rfl
+  · split at h
+    · simp only [List.mem_cons, List.not_mem_nil, or_false] at h
+      rcases h with h | h <;> have := uint8_ofNat_eq_13 _ h.symm <;> omega
+    · split at h
+      · simp only [List.mem_cons, List.not_mem_nil, or_false] at h
+        rcases h with h | h | h <;> have := uint8_ofNat_eq_13 _ h.symm <;> omega
+      · simp only [List.mem_cons, List.not_mem_nil, or_false] at h
+        rcases h with h | h | h | h <;> have := uint8_ofNat_eq_13 _ h.symm <;> omega
+
+theorem cr_not_mem_utf8Encode (s : Str) (h : '\r' ∉ s) : CR ∉ utf8Encode s := by
+  intro hm
+  unfold utf8Encode at hm
+  obtain ⟨c, hc, hb⟩ := List.mem_flatMap.mp hm
+  exact h (mem_utf8EncodeChar_cr c hb ▸ hc)
+
 /-! ### the domain -/
 
 /-- a field of the C07 domain -/
